@@ -518,6 +518,12 @@ def is_probe(fail):
     return isinstance(fail.get("in"), dict) and fail["in"].get("mode") == "probe"
 
 
+def m_deep_nesting_abort(fail):
+    """C11: the expression inside several hundred pairs of parentheses; the process aborts (stack overflow in the recursive
+    descent), nothing else is wrong with the run."""
+    return fail["in"].get("nest", 0) >= 300 and fail["obs"].get("panic") and fail["obs"].get("exit", 0) >= 1000
+
+
 def m_link_to_unreadable_dir(fail):
     """C02: a followed symbolic link whose target is a directory that cannot be read."""
     i = fail["in"]
